@@ -8,6 +8,7 @@ import (
 	"encoding/json"
 	"fmt"
 	"os"
+	"regexp"
 	"sort"
 	"time"
 )
@@ -115,6 +116,10 @@ func verifIte(c bool, a, b int64) int64 {
 func verifAnd(a, b bool) bool     { return a && b }
 func verifOr(a, b bool) bool      { return a || b }
 func verifImplies(a, b bool) bool { return !a || b }
+func verifRegexSearch(pattern, s string) bool {
+	m, err := regexp.MatchString(pattern, s)
+	return err == nil && m
+}
 func verifSetenv(k, v string)     { os.Setenv(k, v) }
 func verifThreads() int           { return 1 }
 func verifBlocked() int           { return 0 }
